@@ -20,6 +20,7 @@ Not decided: the framers' start-code scanning and access-unit cutting
 import itertools
 
 from upv import facts, ghost, tsref
+from upv import pathrules as pr
 from upv.facts import walk
 from upv.absint import SYM, Finding, Undecided, PathEnd
 from upv.report import Report, HOLDS, VIOLATED, UNDECIDED, OOS
@@ -315,6 +316,52 @@ def check_convert(rep, prog):
         raise facts.AnalysisBroken('R-convert domain shrank to %d' % R.runs)
 
 
+def check_prepend(rep, prog):
+    """uref_h26x_prepend_nal: the NAL offsets after a unit was put in front of a frame"""
+    u = prog.units[U_COMMON]
+    fn = prog.lookup(u, 'uref_h26x_prepend_nal')
+    if fn is None or not fn.blocks:
+        raise facts.AnalysisBroken('anchor vanished: uref_h26x_prepend_nal')
+    rep.rule('R-prepend', 'uref_h26x_prepend_nal (used by both framers to put AUD / parameter sets in front of an access unit) on frames of 1..3 NAL units with '
+             'prepended units of 1, 4, 6 octets: the octets are the new unit followed by the old frame, and the NAL offsets are the reference ones - the size '
+             'of the new unit (the boundary between it and the old first unit, also when the frame had a single unit and so carried no offset at all) '
+             'followed by every old offset shifted by that size - so that iterating the NAL units finds one more unit and the same old ones')
+    R = Runner(rep, 'R-prepend')
+    for sizes in ((3,), (1,), (2, 3), (5, 1, 2)):
+        for k in (1, 4, 6):
+            payloads = [tsref.payload_tokens('n%d_' % i, sz) for i, sz in enumerate(sizes)]
+            din, offs_in = frame(ANNEXB, payloads)
+            pre = tsref.payload_tokens('p_', k)
+            inst = 'units=%s,prepended=%d' % ('x'.join(map(str, sizes)), k)
+
+            def mk(din=din, offs_in=offs_in, pre=pre):
+                m = ghost.BlockMachine(prog, u, None, {})
+                m.in_uref = m.new_uref(din, {'h26x.nal_offset[%d]' % i: o for i, o in enumerate(offs_in)})
+                m.pre = m.new_buf(list(pre))
+                return m
+
+            def post(m, ret, din=din, offs_in=offs_in, pre=pre, k=k):
+                if ret != 0:
+                    return 'prepending fails (%s)' % (ret,)
+                uref = m.urefs[m.in_uref[1]]
+                data = m.data_of(m.in_uref)
+                if data != list(pre) + din:
+                    return 'octets after prepending are not the new unit followed by the old frame'
+                want = [k] + [o + k for o in offs_in]
+                got = []
+                while 'h26x.nal_offset[%d]' % len(got) in uref.attrs:
+                    got.append(uref.attrs['h26x.nal_offset[%d]' % len(got)])
+                if got != want:
+                    return 'NAL offsets after prepending %d octets to a frame with offsets %s: %s, reference %s' % (k, offs_in, got, want)
+                lu, lb = m.leaked(keep=[m.in_uref])
+                if lu or lb:
+                    return 'leak: urefs %s buffers %s' % (lu, lb)
+                return None
+            R.run(fn, inst, mk, lambda m: [m.in_uref, m.pre], post)
+    if R.runs < 12:
+        raise facts.AnalysisBroken('R-prepend domain shrank to %d' % R.runs)
+
+
 def tsref_short(toks):
     return ''.join(('%02x' % t) if isinstance(t, int) else '.' for t in toks[:24])
 
@@ -411,6 +458,42 @@ def check_find(rep, prog, tier):
 
 
 # ---- R-au-start: which NAL unit opens a new access unit (H.264) ---------------------------------------------------
+
+def check_au_reset(rep, prog):
+    """the count of NAL units of the access unit being built restarts with every access unit"""
+    rep.rule('R-au-reset', 'upipe_h264f_reset_nal_offsets / upipe_h265f_reset_nal_offsets (called when an access unit has been cut off the stream): every path from '
+             'the entry to the exit stores 0 into au_nal_units - whether or not something is still buffered - since the offsets of the next access unit are '
+             'written at h26x.nal_offset[au_nal_units]: a count that survives makes the next unit\'s offsets start beyond index 0, and iteration finds none '
+             '(the two framers are siblings and must agree)')
+    for uname, pfx in ((U_H264, 'upipe_h264f'), (U_H265, 'upipe_h265f')):
+        u = prog.units.get(uname)
+        fn = u.funcs.get(pfx + '_reset_nal_offsets') if u else None
+        if fn is None or not fn.blocks:
+            raise facts.AnalysisBroken('anchor vanished: %s_reset_nal_offsets' % pfx)
+        ev = pr.Events(fn)
+        store = pr.m_store('au_nal_units', 0)
+        if not ev.find(store):
+            raise facts.AnalysisBroken('anchor vanished: %s_reset_nal_offsets no longer resets au_nal_units' % pfx)
+        hits, _ = ev.reach(None, pr.m_return(), store, from_entry=True)
+        # a function falling off its end has no return node: look for the exit block as well
+        escaped = bool(hits)
+        if not escaped:
+            seen, work = set(), [fn.entry]
+            sblocks = {p_[0] for p_ in ev.find(store)}
+            while work:
+                b = work.pop()
+                if b in seen or b in sblocks:
+                    continue
+                seen.add(b)
+                nxt = [x for x in fn.succ[b] if x is not None]
+                if not nxt or None in fn.succ[b]:
+                    escaped = True
+                    break
+                work.extend(nxt)
+        rep.add('R-au-reset', pfx + '_reset_nal_offsets', VIOLATED if escaped else HOLDS, fn.loc,
+                **({'what': '%s_reset_nal_offsets can return without resetting au_nal_units: the NAL offsets of the next access unit are then written from a '
+                            'stale index and the unit appears to hold a single NAL unit' % pfx} if escaped else {}))
+
 
 def check_au_start(rep, prog):
     """upipe_h264f_begin_annexb interpreted for every NAL header: the previous access unit is closed exactly when
@@ -532,8 +615,10 @@ def run(tier='quick', repo=None):
     check_epb(rep, prog)
     check_golomb(rep, prog)
     check_convert(rep, prog)
+    check_prepend(rep, prog)
     check_find(rep, prog, tier)
     check_au_start(rep, prog)
+    check_au_reset(rep, prog)
     rep.assumptions = ['ubuf_block_stream_get delivers the octets of the buffer in order and reports the end (ghost); the bits cache and the zero-run state are the real fields',
                        'the block / uref API behaves as its ghost model (upv/ghost.py); allocation does not fail',
                        'NAL offset attributes delimit the NAL units of the input frame (what the framers produce)']
